@@ -1,7 +1,8 @@
 (* C02 - Arguments are evaluated once, in order, in the caller's scope, then bound. *)
 (* Statements only; the proofs are in Proofs/Calls.v.                               *)
 From TL Require Import Base.Base Model.Reader Model.Printer Model.Store Model.Eval Model.Init.
-From TL Require Import Proofs.Calls.
+From TL Require Import Proofs.Calls Proofs.Params.
+Local Open Scope list_scope.
 
 (* zip_function_args: for every parameter-list shape (required, &optional,  *)
 (* &rest), every argument list and every interpreter instance, the call       *)
@@ -64,6 +65,34 @@ Print Assumptions C02_values_not_reevaluated. Print Assumptions C02_builtin_rece
 Print Assumptions C02_too_many_no_body. Print Assumptions C02_failed_arguments_no_body.
 Print Assumptions C02_consumed_at_most_supplied.
 
+(* The parameter list as written - names, then optionally `&optional` and more   *)
+(* names, then optionally `&rest` and one name - is read as that many required,   *)
+(* optional and rest parameters, in order.                                         *)
+Theorem C02_parameter_list_shape : forall R optmark O rest,
+  Forall plain R -> Forall plain O -> (optmark = false -> O = []) ->
+  match rest with Some r => plain r | None => True end ->
+  parse_params (of_list (ptext R optmark O rest) Nil) = Ok (pshape R O rest).
+Proof. exact parse_params_shape. Qed.
+(* The distribution of the argument VALUES in closed form, for every number of    *)
+(* values: required parameters take the first values in order (too few: an        *)
+(* error), optional ones the next values, the MISSING optional ones are nil, and   *)
+(* &rest is the list of what is left (nil when nothing is).  The result depends   *)
+(* on the values only - not on what the parameter symbols are bound to, so a tail *)
+(* call that supplies fewer arguments than the activation before it had starts    *)
+(* from nil again (C02_values_not_reevaluated: a bounce distributes by zip_pure). *)
+Theorem C02_distribution_closed_form : forall R O rest vs,
+  zip_pure (pshape R O rest) vs =
+  if (List.length vs <? List.length R)%nat then Err EType
+  else Ok (firstn (List.length R) vs ++
+           firstn (List.length O) (skipn (List.length R) vs) ++
+           repeat Nil (List.length O - (List.length vs - List.length R)) ++
+           match rest with
+           | Some _ => [of_list (skipn (List.length O) (skipn (List.length R) vs)) Nil]
+           | None => []
+           end).
+Proof. exact zip_pure_closed_form. Qed.
+Print Assumptions C02_parameter_list_shape. Print Assumptions C02_distribution_closed_form.
+
 (* non-vacuity: the caller's variable a is read by the second argument after *)
 (* the first argument was evaluated but before the parameter a is bound       *)
 Definition F0 : fops :=
@@ -83,6 +112,14 @@ Example C02_ex2 : fst (run0 "(mapcar 'symbolp '(a 1))") = fst (run0 "'(t nil)").
 Proof. vm_compute. reflexivity. Qed.
 Example C02_ex3 : run0 "(defun g (a) (tick 9 a)) (g (tick 1 1) (tick 2 2))" = (Err EType, [1]%Z).
 Proof. vm_compute. reflexivity. Qed.
+
+(* a tail call that leaves out the optional argument: nil, not the previous value *)
+Example C02_ex4 :
+  fst (run0 "(defun cd (n &optional tag &rest more) (if (< n 1) (list tag more) (cd (- n 1)))) (list (cd 0 'x 'y) (cd 3 'x 'y))")
+  = fst (run0 "'((x (y)) (nil nil))").
+Proof. vm_compute. reflexivity. Qed.
+Example C02_plain_nonvacuous : plain (Sym (s2t "a")) /\ ~ plain (Sym n_rest).
+Proof. split; [exists (s2t "a"); repeat split; vm_compute; reflexivity|]. intros (n & H & _ & H2). inversion H; subst. vm_compute in H2. discriminate. Qed.
 
 Check C02_arguments_then_parameters : forall rec ps args s,
   zip_args rec true ps args s = zip_factored rec ps args s.
